@@ -27,7 +27,7 @@ CHECKS = {
         note=TRUSTED + "; BLS soundness assumed."),
     "C02": dict(
         level="model_checking",
-        technique="TLA+ spec (Relayer.tla) + TLC exhaustive bounded model with an adversary re-submitting every issued vote + TLC trace validation of random real-app histories + export/import cycles validated with the property's own slice",
+        technique="TLA+ spec (Relayer.tla) + TLC exhaustive bounded model with an adversary re-submitting every issued vote + TLC trace validation of random real-app histories + export/import cycles validated with the slice of this property",
         text="MC_Relayer explores every interleaving (within bounds) of genuine, withheld and re-submitted votes with elections and "
              "membership changes and checks that no vote id is accepted twice, the sequence steps by exactly one per acceptance and "
              "rejected steps change nothing; random histories of the real application (with immediate and late re-submission under same "
@@ -35,7 +35,7 @@ CHECKS = {
         note=TRUSTED + "; BLS soundness assumed."),
     "C16": dict(
         level="model_checking",
-        technique="TLA+ spec (Relayer.tla) + TLC exhaustive bounded model of boarding/elections + TLC trace validation of random real-app histories under three parameter settings + export/import cycles validated with the property's own slice",
+        technique="TLA+ spec (Relayer.tla) + TLC exhaustive bounded model of boarding/elections + TLC trace validation of random real-app histories under three parameter settings + export/import cycles validated with the slice of this property",
         text="MC_Relayer checks group/queue well-formedness, never-halting EndBlocker, join-only-by-proof and election timeliness as "
              "invariants and action properties over all interleavings within bounds; real histories with real ECDSA/BLS proofs (valid, "
              "forged, replayed), execution-layer add/remove lists and block times around both deadlines are validated step by step.",
@@ -52,17 +52,17 @@ CHECKS = {
         note=TRUSTED + "; exact for small integer amounts (stated in the evidence)."),
     "C13": dict(
         level="model_checking",
-        technique='TLA+ spec (Locking.tla ranking/top-K/EndBlock, CometBFT acceptance rules) + TLC exhaustive bounded model + TLC trace validation with a real cmttypes.ValidatorSet as acceptance oracle + export/import cycles validated with the property's own slice',
+        technique='TLA+ spec (Locking.tla ranking/top-K/EndBlock, CometBFT acceptance rules) + TLC exhaustive bounded model + TLC trace validation with a real cmttypes.ValidatorSet as acceptance oracle + export/import cycles validated with the slice of this property',
         text="EndBlocker is specified as the descending walk over the ranking with the diff against the recorded set; TLC checks top-K, comet = record, ranking/index consistency, never-halting Begin/End and CometBFT acceptance exhaustively within bounds; on real histories the reported update set, ranking, set and statuses must equal the specification's and the real CometBFT validator-set code must accept every update.",
         note=TRUSTED + "; exact for small integer amounts (stated in the evidence)."),
     "C14": dict(
         level="model_checking",
-        technique='TLA+ spec (Locking.tla votes/evidence/punish/unjail) + TLC exhaustive bounded model with action properties + TLC trace validation of random real-app histories + export/import cycles validated with the property's own slice',
+        technique='TLA+ spec (Locking.tla votes/evidence/punish/unjail) + TLC exhaustive bounded model with action properties + TLC trace validation of random real-app histories + export/import cycles validated with the slice of this property',
         text='Downtime accounting, slashing (whole amount when the slice truncates to zero), jailing, un-jailing by lock and tombstoning are specified; TLC checks tombstone-forever, jail-only-from-active and unjail-only-after-jail-and-thresholds as action properties; real histories with absences across window boundaries and evidence of every age are compared status by status, counter by counter.',
         note=TRUSTED + "; exact for small integer amounts (stated in the evidence)."),
     "C15": dict(
         level="model_checking",
-        technique='TLA+ spec (Locking.tla unlock queue, maturation, delivery) + TLC exhaustive bounded model + TLC trace validation incl. burst histories beyond the delivery cap + export/import cycles validated with the property's own slice',
+        technique='TLA+ spec (Locking.tla unlock queue, maturation, delivery) + TLC exhaustive bounded model + TLC trace validation incl. burst histories beyond the delivery cap + export/import cycles validated with the slice of this property',
         text="Every unlock carries its request time and maturity; TLC checks delivery time >= maturity, delivered-once and the exit rule exhaustively within bounds; on real histories both queues, the nonce and the decoded complete-unlock system transactions of each payload must equal the specification's, including bursts of more than 16 unlocks maturing together.",
         note=TRUSTED + "; exact for small integer amounts (stated in the evidence)."),
     "C03": dict(
